@@ -34,6 +34,8 @@ def run(ck):
     ck.rule("C12.R10", "what a reload replaces holds no per-span state of its own: a value swapped in judges spans that were opened before the reload", floor=5)
     ck.rule("C12.R11", "an EnvFilter edited in place is re-read by the rebuild: register_callsite refreshes the per-callsite span matcher on every registration (as C08.R11)", floor=1)
     ck.rule("C12.R12", "a callsite first hit while a reload is in progress ends up judged by the new value: only the thread that won the registration CAS registers, others answer `sometimes` (as C04.R4), and the cached interest is written only through set_interest (as C01.R7)", floor=5)
+    ck.rule("C12.R15", "after a reload the stack combines interests and hints according to what the slot holds *now*: whether a position carries a per-subscriber "
+            "filter is asked of the live value, not remembered from construction", floor=1)
     ck.rule("C12.R14", "what the reloaded filter answers the rebuild is not lost when per-subscriber filters' interests are combined: differing answers accumulate to "
             "`sometimes`, whichever came first (as C08.R3)", floor=1)
     ck.rule("C12.R13", "the questions the rebuild asks reach the reloadable layer: every wrapper on the way (Layered, Box, Arc, Option, Vec, Filtered) forwards register_callsite / enabled / max_level_hint (as C09.R1/R2)", floor=20)
@@ -73,7 +75,32 @@ def run(ck):
             C08.envfilter_matcher_refresh(ck, F, rid="C12.R11")
             # the new value's answer to the rebuild must survive being combined with its neighbours' answers
             C08.r3(ck, F, rid="C12.R14")
+            psf_snapshot(ck, F)
     ck.tag = ""
+
+
+def psf_snapshot(ck, F, rid="C12.R15"):
+    """Layered::new computes has_subscriber_filter / inner_has_subscriber_filter once. pick_interest and pick_level_hint
+    branch on those fields, so a reload::Subscriber<Box<dyn Subscribe>> (or Vec / Option of them) that is reloaded from a
+    filtered value to an unfiltered one -- or to a global filter -- is still combined as `per-subscriber filtered`: the new
+    value's own interest and hint are discarded."""
+    L = "tracing_subscriber::subscribe::layered::Layered::<A, B, C>::"
+    stale = []
+    for m in ("pick_interest", "pick_level_hint"):
+        b = F.body(L + m)
+        if not ck.anchor(rid, "Layered::" + m, b):
+            continue
+        conds = {show(c[0]) for p in PathEval(b).run() for c in p.conds}
+        flags = sorted(c for c in conds if c in ("arg1.has_subscriber_filter", "arg1.inner_has_subscriber_filter"))
+        fresh = any(c.startswith("subscriber_has_psf(") for c in conds)
+        if flags and not fresh:
+            stale.append("%s branches on %s" % (m, ", ".join(f.split(".")[-1] for f in flags)))
+    key = "Layered asks the live subscribers whether they are per-subscriber filtered"
+    if stale:
+        ck.bad(rid, key, "tracing-subscriber/src/subscribe/layered.rs", "; ".join(stale) + ": flags computed in Layered::new; a reload that changes the filtered/unfiltered "
+               "shape of the slot is combined by the old shape -- the new unfiltered layer only ever sees what the old filter let through, a new global filter is never asked")
+    else:
+        ck.ok(rid, key)
 
 
 def r1_r2(ck, F):
